@@ -7,8 +7,9 @@ cd $W || exit 2
 git checkout -q -- .
 mkdir -p $W/SEEDED && cp $S/* $W/SEEDED/ 2>/dev/null
 git apply $S/patch.diff || { echo "patch does not apply"; exit 2; }
+touch build.rs
 echo "== tests with change"; cargo test --workspace --no-fail-fast --offline 2>&1 | grep -E "^test result|FAILED|failed|panicked" | sort | uniq -c | tail -5
 echo "== demo with change"; (cd $W && timeout 900 sh $W/SEEDED/run.sh > /tmp/sw/$ID.demo_with.log 2>&1; echo "rc=$?")
-git apply -R $S/patch.diff
+git apply -R $S/patch.diff; touch build.rs
 echo "== demo without change"; (cd $W && timeout 900 sh $W/SEEDED/run.sh > /tmp/sw/$ID.demo_without.log 2>&1; echo "rc=$?")
 git status --short | grep -v SEEDED
